@@ -87,7 +87,7 @@ fn gen_case(seed: u64, i: u64, corpus: &[String], regr: &[String]) -> (String, S
             (format!("dispatch-{how}"), s)
         }
         21..=24 => {
-            let (s, how) = inputs::typed_program(&mut r);
+            let (s, how) = if r.chance(1, 4) { inputs::generic_calls(&mut r) } else { inputs::typed_program(&mut r) };
             (format!("types-{how}"), s)
         }
         20 => {
@@ -118,6 +118,49 @@ fn gen_case(seed: u64, i: u64, corpus: &[String], regr: &[String]) -> (String, S
             (format!("nesting-{}", if d >= 90 { "90-100" } else if d >= 50 { "50-89" } else { "1-49" }), s)
         }
     }
+}
+
+/// The source with the type parameters of every generic function (`#<'a, 'b>[…] { … }`, up to the
+/// first `}` after its head) renamed to names of their own (`'a_own0`, `'a_own1`, …).
+fn rename_first_generic(src: &str) -> Option<String> {
+    let mut out = String::new();
+    let mut rest = src;
+    let mut k = 0;
+    while let Some(start) = rest.find("#<'") {
+        let close = start + rest[start..].find('>')?;
+        let names: Vec<String> = rest[start + 2..close].split(',').map(|n| n.trim().trim_start_matches('\'').to_string()).collect();
+        if names.is_empty() || names.iter().any(|n| n.is_empty() || !n.chars().all(|c| c.is_ascii_alphanumeric() || c == '_')) {
+            return None;
+        }
+        let end = start + rest[start..].find('}').map(|e| e + 1)?;
+        let mut body = rest[start..end].to_string();
+        for n in &names {
+            let mut renamed = String::new();
+            let pat = format!("'{n}");
+            let mut r = body.as_str();
+            while let Some(p) = r.find(&pat) {
+                let after = &r[p + pat.len()..];
+                renamed.push_str(&r[..p]);
+                if after.chars().next().is_some_and(|c| c.is_ascii_alphanumeric() || c == '_') {
+                    renamed.push_str(&pat);
+                } else {
+                    renamed.push_str(&format!("'{n}_own{k}"));
+                }
+                r = after;
+            }
+            renamed.push_str(r);
+            body = renamed;
+        }
+        out.push_str(&rest[..start]);
+        out.push_str(&body);
+        rest = &rest[end..];
+        k += 1;
+    }
+    if k == 0 {
+        return None;
+    }
+    out.push_str(rest);
+    Some(out)
 }
 
 /// One case, in-process: the outcome line (without the case number).
@@ -527,7 +570,8 @@ fn main() {
             // the child died while working on case i: crash (stack overflow / abort)
             let (stream, src) = gen_case(opts.seed, i, &corpus, &regr);
             ev.hit("robust:violation:crash");
-            let crashes = ev.counters.get("robust:violation:crash").copied().unwrap_or(0);
+            let crashes = ev.counters.get("robust:violation:crash").copied().unwrap_or(0)
+                - ev.counters.get("robust:known-crash").copied().unwrap_or(0);
             let small = if crashes > 1 {
                 src.clone()
             } else {
@@ -535,12 +579,30 @@ fn main() {
                 shrink(&src, &mut pred, 40)
             };
             let nest = small.chars().filter(|c| "[{(".contains(*c)).count();
+            // cause: a generic function applied inside another generic function that uses the SAME
+            // type-parameter names (repair test: give the first generic function names of its own);
+            // the repaired program tells whether the crashing one is well typed
+            let sig = match rename_first_generic(&src) {
+                Some(renamed) => match probe(&renamed, Duration::from_secs(5)) {
+                    Probe::Line(a) if a.contains("C ok") => "robust kind=crash cause=generic-call-shared-type-parameter-names program=well-typed".to_string(),
+                    Probe::Line(a) if a.contains("C compile-error") => "robust kind=crash cause=generic-call-shared-type-parameter-names program=ill-typed".to_string(),
+                    _ => "robust kind=crash".to_string(),
+                },
+                None => "robust kind=crash".to_string(),
+            };
+            let known = ev.is_known(&sig);
             ev.violation(
-                "robust kind=crash",
+                &sig,
                 &format!("front end crashes the process ({status}) on an input of {} chars with {} opening brackets (stream {stream}): {:?}", small.chars().count(), nest, small.chars().take(200).collect::<String>()),
                 json!({"source": small, "status": status, "original_source": src, "stream": stream}),
                 true,
             );
+            if known {
+                ev.hit("robust:known-crash");
+                next = i + 1;
+                continue;
+            }
+            ev.hit("robust:unknown-crash");
             next = i + 1;
             if crashes >= 20 {
                 // the property is plainly violated; restarting a child per crashing case would take
@@ -558,7 +620,7 @@ fn main() {
     }
     // ---- string literals against the model (in-process; after the search, and not at all when the
     // search saw the process die: the same input class would take this process down too) ----------
-    if ev.counters.contains_key("robust:violation:crash") {
+    if ev.counters.contains_key("robust:unknown-crash") {
         ev.hit("string:skipped-after-crash");
     } else {
         strings::part_decode(&mut ev, &mut model, &opts);
